@@ -2,6 +2,7 @@
 from __future__ import annotations
 
 import itertools
+import re
 import sys
 
 import z3
@@ -12,6 +13,7 @@ from symx.core import And, Or, Not, SymInt
 from symx.symstr import SymStr, SymChar, Num, fresh_char
 
 from .common import collector, explore_case
+from . import gendrive
 from .gendrive import token_reference
 
 PROPERTY = "C02"
@@ -323,7 +325,7 @@ def run_structure_case(case, g, tier, res, on_path):
             else:
                 params.append(c.fresh_real(f"p{i}", 1e-3, 1e6))
         if T["dist"] == "uniform":
-            c.assume(params[0] < params[1])
+            c.assume(params[0] <= params[1])  # equal bounds are accepted and must come back as written
         if T["dist"] == "schulz_zimm":
             c.assume(params[0] > params[1])
         if T["dist"] == "flory_schulz":
@@ -534,6 +536,8 @@ CONCRETE = [
     "[$]CC([$])C#N", "[$]C([H])(C#N)[$]", "[$]CC(C[$])(c1ccccc1)", "[$][Si]CC(c1ccccc1)[$]", "[<]C(=O)c1ccc(cc1)C(=O)[<]",
     "CC([>])(C[<])C(=O)OCC(O)CSc1c(F)cccc1F", "[<]CCl", "Br[>]", "[<]C1CC1[>]", "[>]C(Cl)(Br)C[<]", "[$]C[N+](C)(C)[$]", "C(=[$])C",
     "[<]CC(C)([>])C(=O)OC", "[<]C(C)(C)C(C)(C)[>]", "[$]C(C)(C)(C)", "C([<])(C)(C)[>]", "[<]CC(c1ccccc1)(C)[>]",
+    "[$]CC([$])C(=O)O[C@H](C)CC", "[$]CC([$])C(=O)O[C@@H](C)CC", "[<][C@@H](C)C(=O)O[>]", "[<]C[13CH2][>]", "[$][CH2][CH2][$]", "[$]C([2H])([2H])[$]",
+    "[<]C[NH+](C)C[>]", "[$]C[C@](F)(Cl)[$]",
 ]
 
 
@@ -554,7 +558,7 @@ def run_concrete_case(case, g, tier, res, on_path):
             c.prove(False, "valid token accepted", detail("a valid token is rejected"))
             return
         c.prove(len(tok.atoms) == len(ref["real"]), "atoms recovered", detail("number of atoms differs"))
-        c.prove(_atoms_match(tok, ref), "atoms recovered", detail("an atom differs from the written one"))
+        c.prove(_atoms_match(tok, ref, t), "atoms recovered", detail("an atom differs from the written one"))
         for bd, (ra, ro) in zip(tok.bond_descriptors, ref["descriptors"]):
             c.prove(bd.atom_bonding_to == ra, "descriptor binds to the atom the SMILES denotes", detail("a descriptor is attached to the wrong atom"))
             c.prove(bd.bond_type == ro, "descriptor bond order is the one written", detail("a descriptor gets the wrong bond order"))
@@ -563,19 +567,44 @@ def run_concrete_case(case, g, tier, res, on_path):
     explore_case(res, h, tier, on_path=on_path)
 
 
-def _atoms_match(tok, ref):
-    """every recorded atom is the element / charge RDKit reads at that position of the text"""
+_WRITTEN_ATOM = re.compile(r"\[[^\]]*\]|Cl|Br|[BCNOPSFIbcnops]")
+
+
+def written_atoms(text):
+    """the atoms of a token text in the order they are written (bond descriptors removed first)"""
+    return _WRITTEN_ATOM.findall(gendrive._BD.sub("", text))
+
+
+def _single(t):
+    am = Chem.MolFromSmiles(t if len(t) > 1 or t.isupper() else t.upper(), sanitize=False)
+    if am is None or am.GetNumAtoms() != 1:
+        return None
+    am.UpdatePropertyCache(strict=False)
+    return am.GetAtomWithIdx(0)
+
+
+def _atoms_match(tok, ref, text=None):
+    """every recorded atom is the element / charge RDKit reads at that position of the text; a bracket atom also keeps the
+    isotope, the hydrogen count and the chirality mark it is written with"""
     m = ref["with_dummies"]
     if len(tok.atoms) != len(ref["real"]):
         return False
-    for a, idx in zip(tok.atoms, ref["real"]):
-        t = a.generate_string(False)
-        am = Chem.MolFromSmiles(t if len(t) > 1 or t.isupper() else t.upper())
-        if am is None or am.GetNumAtoms() != 1:
+    written = written_atoms(text) if text is not None else None
+    if written is not None and len(written) != len(tok.atoms):
+        written = None
+    for k, (a, idx) in enumerate(zip(tok.atoms, ref["real"])):
+        t = str(a.generate_string(False))
+        x, y = _single(t), m.GetAtomWithIdx(idx)
+        if x is None:
             return False
-        x, y = am.GetAtomWithIdx(0), m.GetAtomWithIdx(idx)
         if x.GetAtomicNum() != y.GetAtomicNum() or x.GetFormalCharge() != y.GetFormalCharge():
             return False
+        if written is not None and written[k].startswith("["):
+            w = _single(written[k])
+            if w is None:
+                continue
+            if x.GetIsotope() != w.GetIsotope() or x.GetTotalNumHs() != w.GetTotalNumHs() or t.count("@") != written[k].count("@"):
+                return False
     return True
 
 
@@ -604,7 +633,7 @@ def replay(rp, gb):
         bad = []
         if len(tok.atoms) != len(ref["real"]):
             bad.append("atom count")
-        elif not _atoms_match(tok, ref):
+        elif not _atoms_match(tok, ref, t):
             bad.append("an atom differs from the written one")
         if len(tok.bond_descriptors) != len(ref["descriptors"]):
             bad.append("descriptor count")
